@@ -7,6 +7,7 @@ import (
 	"os/exec"
 	"strconv"
 	"strings"
+	"time"
 
 	ysgo "github.com/remieven/ysgo"
 
@@ -45,7 +46,7 @@ func init() {
 	}, run: runRunnerCase})
 	convCfg := flowCfg
 	convCfg.wCmd, convCfg.wStop, convCfg.maxNodes, convCfg.wJump = 9, 1, 3, 3
-	convCfg.cmdNames = []string{"act1", "act2", "act3", "walk"}
+	convCfg.cmdNames = []string{"act1", "act2", "act3", "walk", "stop"}
 	register("convcmds", family{gen: func(r *rand.Rand, tier string) *sx.Node {
 		return genRunnerCase(r, convCfg, opsCfg{steps: 36, extraAfterEnd: 1, snapshots: true, runners: 1, snapFreq: 5})
 	}, run: runRunnerCase})
@@ -514,7 +515,14 @@ func genCmdArgsCase(r *rand.Rand, tier string) *sx.Node {
 			if r.Intn(4) == 0 {
 				els = append(els, sx.Tag("t", sx.Str(text+sep)))
 				text = ""
-				els = append(els, sx.Tag("e", g.expr([]string{"num", "bool", "str"}[r.Intn(3)], 1)))
+				if r.Intn(3) == 0 {
+					// no variable in it, yet a different value every time the statement runs
+					vc := fnCall("visited_count", strLit("Start"))
+					els = append(els, sx.Tag("e", []*sx.Node{vc, fnCall("dice", numLit(6)), fnCall("p", strLit("t"), vc),
+						fnCall("random_range", numLit(1), numLit(50)), binOp("+", vc, numLit(1)), fnCall("visited", strLit("Start"))}[r.Intn(6)]))
+				} else {
+					els = append(els, sx.Tag("e", g.expr([]string{"num", "bool", "str"}[r.Intn(3)], 1)))
+				}
 				if r.Intn(3) == 0 {
 					text = "" // the next word follows the expression directly
 				}
@@ -533,6 +541,13 @@ func genCmdArgsCase(r *rand.Rand, tier string) *sx.Node {
 			break
 		}
 	}
+	nops := k + 2
+	if r.Intn(2) == 0 {
+		// the node runs two or three times in one runner: every command statement is dispatched again
+		body = append(body, sx.Tag("if", sx.Tag("clause", binOp("<", fnCall("visited_count", strLit("Start")), numLit(float64(1+r.Intn(2)))),
+			sx.List(sx.Tag("jump", strLit("Start"))))))
+		nops *= 3
+	}
 	body = append(body, sx.Tag("line", sx.List(sx.Tag("t", sx.Str("done"))), sx.List(), sx.List()))
 	nodes := []*sx.Node{sx.Tag("node", sx.List(sx.List(sx.Str("title"), sx.Str("Start"))), sx.List(body...))}
 	hc := []*sx.Node{}
@@ -541,13 +556,13 @@ func genCmdArgsCase(r *rand.Rand, tier string) *sx.Node {
 	}
 	hc = append(hc, sx.Str("stop")) // a handler registered under "stop" must never run
 	ops := []*sx.Node{}
-	for i := 0; i < k+2; i++ {
+	for i := 0; i < nops; i++ {
 		ops = append(ops, sx.Tag("next", sx.Int(0), sx.Int(0)))
 	}
 	lseed := r.Int63()
 	lay := randomLayout(rand.New(rand.NewSource(lseed)))
 	lay.trailingCmt, lay.blankProb = 0, 0
-	return sx.Tag("runner", seedNode(randomSeed(r), 4), sx.Tag("storer", sx.Bool(false)), sx.Tag("init"), sx.Tag("hcmds", hc...),
+	return sx.Tag("runner", seedNode(randomSeed(r), 64), sx.Tag("storer", sx.Bool(false)), sx.Tag("init"), sx.Tag("hcmds", hc...),
 		sx.Tag("sched"), sx.Tag("nrunners", sx.Int(1)), sx.Tag("nodes", sx.List(nodes...)), sx.Tag("readers", sx.Int(1)),
 		layoutToSx(lay, lseed), sx.Tag("ops", ops...))
 }
@@ -627,6 +642,32 @@ func runConcurrent(c *sx.Node) *sx.Node {
 	results := make([]*sx.Node, len(cases))
 	start := make(chan struct{})
 	done := make(chan int, len(cases))
+	stop := make(chan struct{})
+	noiseDone := make(chan struct{}, 4)
+	// meanwhile other goroutines keep offering the library scripts it must refuse (abandoned in the
+	// middle of an indented block, after the last node, at the first token ...): what one caller
+	// feeds the library must not influence what another caller gets
+	for n := 0; n < 4; n++ {
+		go func(n int) {
+			defer func() { recover(); noiseDone <- struct{}{} }()
+			<-start
+			for round := 0; ; round++ {
+				select {
+				case <-stop:
+					return
+				default:
+				}
+				src := brokenScripts[(n+round)%len(brokenScripts)]
+				func() {
+					defer func() { recover() }()
+					ysgo.NewDialogueRunner(nil, "noise", strings.NewReader(src))
+				}()
+				if round%8 == 7 {
+					time.Sleep(200 * time.Microsecond)
+				}
+			}
+		}(n)
+	}
 	for i := range cases {
 		go func(i int) {
 			defer func() {
@@ -636,12 +677,33 @@ func runConcurrent(c *sx.Node) *sx.Node {
 				done <- i
 			}()
 			<-start
-			results[i] = runRunnerCase(cases[i])
+			first := runRunnerCase(cases[i])
+			// and once more, later in the life of the process
+			if second := runRunnerCase(cases[i]); second.String() != first.String() {
+				first = sx.Tag("unstable", first, second)
+			}
+			results[i] = first
 		}(i)
 	}
 	close(start)
 	for range cases {
 		<-done
 	}
+	close(stop)
+	for n := 0; n < 4; n++ {
+		<-noiseDone
+	}
 	return sx.Tag("all", results...)
+}
+
+// brokenScripts are refused by NewDialogueRunner, each at a different point of the load.
+var brokenScripts = []string{
+	"title: A\n---\n-> a\n    x\n    -> b\n        y\n \t  z\n===\n",       // tab/space mix inside a nested block
+	"title: A\n---\nline\n===\n    junk\n",                                   // indented input after the last node
+	"title: A\n---\n-> a\n    <<if>>\n        q\n===\n",                      // syntax error inside an indented block
+	"title: A\n---\n-> a\n        deep\n    <<set $x to >>\n",                 // no end of node, half-closed indentation
+	"",                                                                          // nothing at all
+	"title: A\n---\n<<jump>>\n-> o\n    -> p\n        -> q\n            r",     // error, then end of input deep inside
+	"title: A\n---\n-> a\n\t-> b\n\t\tc\n\t  d\n===\n",                        // tabs then blanks
+	"title: A\n---\n    indented first line\n        deeper\n===\n===\n",         // stray second delimiter
 }
